@@ -287,7 +287,7 @@ def shards(tier, seed):
     n_h = 16
     for k in range(n_h):
         out.append(dict(kind='hyp', seed=seed * 1000 + k,
-                        n=150 if tier == 'quick' else 2500))
+                        n=150 if tier == 'quick' else 7500))
     for i in range(len(FIXED_SPECS)):
         for part in range(2 if tier == 'quick' else 8):
             out.append(dict(kind='short', spec=i, part=part,
